@@ -29,6 +29,7 @@ import (
 
 	"github.com/casbin/casbin/v2"
 	client "github.com/liftbridge-io/liftbridge-api/v2/go"
+	"github.com/liftbridge-io/liftbridge/server/logger"
 	"google.golang.org/grpc"
 	"google.golang.org/grpc/credentials"
 	"google.golang.org/grpc/metadata"
@@ -110,15 +111,16 @@ type vC15Sess struct {
 }
 
 type vC15Run struct {
-	sess    map[string]*vC15Sess
-	t       *testing.T
-	grpc    client.APIClient // TLS mode: calls go through a real gRPC/TLS connection
-	certCN  string           // TLS mode: the common name of the client certificate stands for client "alice"
-	srv     *Server
-	id      int
-	dir     string
-	version int
-	subs    []*vC15Sub
+	sess     map[string]*vC15Sess
+	t        *testing.T
+	grpc     client.APIClient // TLS mode: calls go through a real gRPC/TLS connection
+	certCN   string           // TLS mode: the common name of the client certificate stands for client "alice"
+	srv      *Server
+	id       int
+	dir      string
+	version  int
+	lastFile [][]string // what was last written to the policy file
+	subs     []*vC15Sub
 }
 
 func (r *vC15Run) real(model string) string {
@@ -142,6 +144,51 @@ func (r *vC15Run) who(c string) string {
 	}
 	return c
 }
+
+// vC15Subj: the NATS subject of a model stream is a name of its own (Authz!SubjOf)
+func vC15Subj(modelStream string) string {
+	switch modelStream {
+	case "s1":
+		return "j1"
+	case "s2":
+		return "j2"
+	}
+	return "jsys"
+}
+
+var vC15Streams = []string{"s1", "s2", "__cursors"}
+
+// reload log lines of the SIGHUP handler (server/signal.go), counted through a wrapping logger
+type vC15Logger struct {
+	logger.Logger
+	failed, reloaded int64
+}
+
+func (l *vC15Logger) Errorf(f string, v ...interface{}) {
+	if strings.Contains(strings.ToLower(f), "reload") {
+		atomic.AddInt64(&l.failed, 1)
+	}
+	l.Logger.Errorf(f, v...)
+}
+
+func (l *vC15Logger) Info(v ...interface{}) {
+	if strings.Contains(strings.ToLower(fmt.Sprint(v...)), "reload") {
+		atomic.AddInt64(&l.reloaded, 1)
+	}
+	l.Logger.Info(v...)
+}
+
+func (l *vC15Logger) Infof(f string, v ...interface{}) {
+	if strings.Contains(strings.ToLower(f), "reload") {
+		atomic.AddInt64(&l.reloaded, 1)
+	}
+	l.Logger.Infof(f, v...)
+}
+
+var (
+	vC15Log        *vC15Logger
+	vC15ReloadDead bool // a reload request was ignored before: do not wait long for the next ones
+)
 
 func vC15Ctx(clientID string) context.Context {
 	return context.WithValue(context.Background(), "clientID", clientID)
@@ -203,6 +250,7 @@ func (r *vC15Run) closeSubs() {
 // ---- policy --------------------------------------------------------------------
 
 func (r *vC15Run) writePolicy(entries [][]string) {
+	r.lastFile = entries
 	r.version++
 	var b strings.Builder
 	fmt.Fprintf(&b, "p, probe, probe, v%d-%d\n", r.id, r.version)
@@ -214,27 +262,44 @@ func (r *vC15Run) writePolicy(entries [][]string) {
 	}
 }
 
-// reload sends the real SIGHUP and waits until the enforcer shows the probe
-// entry of the current file version.
-func (r *vC15Run) reload() {
+// reload sends the real SIGHUP and reports what the handler did with it: "Ok" (the probe entry of the
+// current file version is visible in the enforcer), "Failed" (the handler logged a failed reload),
+// "Ignored" (neither, although the signal was sent twice and waited for).
+func (r *vC15Run) reload() string {
 	if r.srv.authzEnforcer == nil {
-		return // nothing to reload into (and the pinned SIGHUP handler dereferences the missing enforcer)
-	}
-	if err := syscall.Kill(os.Getpid(), syscall.SIGHUP); err != nil {
-		r.t.Fatalf("INCONCLUSIVE: kill: %v", err)
+		return "Ok" // nothing to reload into (and the pinned SIGHUP handler dereferences the missing enforcer)
 	}
 	probe := fmt.Sprintf("v%d-%d", r.id, r.version)
-	deadline := time.Now().Add(vC15Deadline)
-	for {
-		ok, _ := r.srv.api.enforcePolicy("probe", "probe", probe)
-		if ok {
-			return
-		}
-		if time.Now().After(deadline) {
-			r.t.Fatalf("INCONCLUSIVE: policy reload not visible")
-		}
-		time.Sleep(200 * time.Microsecond)
+	wait := 10 * time.Second
+	attempts := 2
+	if vC15ReloadDead {
+		wait, attempts = 200*time.Millisecond, 1
 	}
+	for attempt := 0; attempt < attempts; attempt++ {
+		failed0 := atomic.LoadInt64(&vC15Log.failed)
+		if err := syscall.Kill(os.Getpid(), syscall.SIGHUP); err != nil {
+			r.t.Fatalf("INCONCLUSIVE: kill: %v", err)
+		}
+		deadline := time.Now().Add(wait)
+		for time.Now().Before(deadline) {
+			if r.fileThere() {
+				if ok, _ := r.srv.api.enforcePolicy("probe", "probe", probe); ok {
+					return "Ok"
+				}
+			}
+			if atomic.LoadInt64(&vC15Log.failed) > failed0 {
+				return "Failed"
+			}
+			time.Sleep(200 * time.Microsecond)
+		}
+	}
+	vC15ReloadDead = true
+	return "Ignored"
+}
+
+func (r *vC15Run) fileThere() bool {
+	_, err := os.Stat(filepath.Join(r.dir, "policy.csv"))
+	return err == nil
 }
 
 func (r *vC15Run) loadedPolicy() [][]string {
@@ -266,7 +331,13 @@ func (r *vC15Run) cleanPolicy(pol [][]string) [][]string {
 func (r *vC15Run) filePolicy() [][]string {
 	b, err := os.ReadFile(filepath.Join(r.dir, "policy.csv"))
 	if err != nil {
-		r.t.Fatalf("INCONCLUSIVE: %v", err)
+		// the file was removed: what it last held (Authz!policyFile keeps it, fileOK = FALSE)
+		out := [][]string{}
+		for _, e := range r.lastFile {
+			out = append(out, []string{e[0], e[1], e[2]})
+		}
+		sort.Slice(out, func(a, b int) bool { return strings.Join(out[a], "|") < strings.Join(out[b], "|") })
+		return out
 	}
 	pol := [][]string{}
 	for _, line := range strings.Split(string(b), "\n") {
@@ -284,7 +355,7 @@ func (r *vC15Run) world() map[string]interface{} {
 	// let subscription loops start / finish: the server-side subscriber count and
 	// group entry must agree with the handlers that are alive, for 20 ms in a row
 	quiet := func() bool {
-		for _, s := range []string{"s1", "s2"} {
+		for _, s := range []string{"s1", "s2", "__cursors"} {
 			alive, aliveGroup := int64(0), false
 			for _, sub := range r.subs {
 				if sub.stream == s && sub.alive() {
@@ -324,7 +395,7 @@ func (r *vC15Run) world() map[string]interface{} {
 	}
 	st := map[string]interface{}{}
 	cur := map[string]interface{}{}
-	for _, s := range []string{"s1", "s2"} {
+	for _, s := range []string{"s1", "s2", "__cursors"} {
 		e := map[string]interface{}{"exists": false, "paused": false, "readonly": false, "len": 0, "plain": 0,
 			"gsub": map[string]interface{}{"cid": "", "epoch": -1}}
 		if stream := r.srv.metadata.GetStream(r.real(s)); stream != nil {
@@ -367,7 +438,7 @@ func (r *vC15Run) world() map[string]interface{} {
 	}
 	sort.Strings(sessions)
 	return map[string]interface{}{"policy": r.loadedPolicy(), "policyFile": r.filePolicy(), "st": st, "cursors": cur,
-		"members": members, "sessions": sessions, "enforcer": r.srv.authzEnforcer != nil}
+		"members": members, "sessions": sessions, "enforcer": r.srv.authzEnforcer != nil, "fileOK": r.fileThere()}
 }
 
 // ---- calls -----------------------------------------------------------------------
@@ -402,7 +473,7 @@ func (r *vC15Run) call(c map[string]interface{}) (res string, detail string) {
 	defer cancel()
 	switch m {
 	case "CreateStream":
-		_, err = api.CreateStream(ctx, &client.CreateStreamRequest{Name: stream, Subject: stream})
+		_, err = api.CreateStream(ctx, &client.CreateStreamRequest{Name: stream, Subject: r.real(vC15Subj(vStr(c, "s")))})
 	case "DeleteStream":
 		_, err = api.DeleteStream(ctx, &client.DeleteStreamRequest{Name: stream})
 	case "PauseStream":
@@ -419,7 +490,7 @@ func (r *vC15Run) call(c map[string]interface{}) (res string, detail string) {
 		_, err = api.Publish(ctx, &client.PublishRequest{Stream: stream, Value: []byte("v"), AckPolicy: client.AckPolicy_LEADER})
 	case "PublishToSubject":
 		sctx, scancel := context.WithTimeout(vC15Ctx(who), 400*time.Millisecond)
-		_, err = api.PublishToSubject(sctx, &client.PublishToSubjectRequest{Subject: stream, Value: []byte("v"),
+		_, err = api.PublishToSubject(sctx, &client.PublishToSubjectRequest{Subject: r.real(vC15Subj(vStr(c, "s"))), Value: []byte("v"),
 			AckPolicy: client.AckPolicy_LEADER})
 		scancel()
 	case "PublishAsync":
@@ -472,7 +543,7 @@ func (r *vC15Run) callTLS(c map[string]interface{}) (string, string) {
 	defer cancel()
 	switch m {
 	case "CreateStream":
-		_, err = g.CreateStream(ctx, &client.CreateStreamRequest{Name: stream, Subject: stream})
+		_, err = g.CreateStream(ctx, &client.CreateStreamRequest{Name: stream, Subject: r.real(vC15Subj(vStr(c, "s")))})
 	case "DeleteStream":
 		_, err = g.DeleteStream(ctx, &client.DeleteStreamRequest{Name: stream})
 	case "PauseStream":
@@ -487,7 +558,7 @@ func (r *vC15Run) callTLS(c map[string]interface{}) (string, string) {
 		_, err = g.Publish(ctx, &client.PublishRequest{Stream: stream, Value: []byte("v"), AckPolicy: client.AckPolicy_LEADER})
 	case "PublishToSubject":
 		sctx, scancel := context.WithTimeout(context.Background(), 400*time.Millisecond)
-		_, err = g.PublishToSubject(sctx, &client.PublishToSubjectRequest{Subject: stream, Value: []byte("v"),
+		_, err = g.PublishToSubject(sctx, &client.PublishToSubjectRequest{Subject: r.real(vC15Subj(vStr(c, "s"))), Value: []byte("v"),
 			AckPolicy: client.AckPolicy_LEADER})
 		scancel()
 	case "SetCursor":
@@ -642,7 +713,7 @@ func (r *vC15Run) setup(cfg map[string]interface{}) {
 		e := st[s].(map[string]interface{})
 		name := r.real(s)
 		if vBool(e, "exists") {
-			_, err := api.CreateStream(context.Background(), &client.CreateStreamRequest{Name: name, Subject: name})
+			_, err := api.CreateStream(context.Background(), &client.CreateStreamRequest{Name: name, Subject: r.real(vC15Subj(s))})
 			must("create", err)
 			deadline := time.Now().Add(vC15Deadline)
 			for {
@@ -784,6 +855,9 @@ func vC15Main(t *testing.T, tlsMode bool) {
 		srv.authzEnforcer = &authzEnforcer{enforcer: enf}
 		srv.config.TLSClientAuthz = true
 	}
+	vC15Log = &vC15Logger{Logger: srv.logger}
+	srv.logger = vC15Log
+	vC15ReloadDead = false
 	// wait until the cursors stream is served
 	deadline := time.Now().Add(vC15Deadline)
 	for {
@@ -811,7 +885,10 @@ func vC15Main(t *testing.T, tlsMode bool) {
 		r := &vC15Run{t: t, srv: srv, id: b.ID, dir: dir, grpc: gc, certCN: certCN}
 		r.setup(b.Cfg)
 		r.writePolicy(vC15Entries(b.Cfg["policy"]))
-		r.reload()
+		if res := r.reload(); res != "Ok" && srv.authzEnforcer != nil {
+			// the start situation could not be loaded: recorded, the Open line then shows policy # policyFile
+			t.Logf("initial policy load of behaviour %d: %s", b.ID, res)
+		}
 		tw.Emit(map[string]interface{}{"a": "Open", "t": b.ID, "args": map[string]interface{}{}, "st": r.world(),
 			"obs": map[string]interface{}{"a": "Open", "res": "Ok"}})
 		for _, s := range b.Steps {
@@ -827,8 +904,10 @@ func vC15Main(t *testing.T, tlsMode bool) {
 				args["call"] = c
 			case "EditPolicy":
 				r.writePolicy(vC15Entries(s["policy"]))
+			case "BreakFile":
+				os.Remove(filepath.Join(dir, "policy.csv"))
 			case "Reload":
-				r.reload()
+				obs["res"] = r.reload()
 			}
 			tw.Emit(map[string]interface{}{"a": a, "t": b.ID, "args": args, "st": r.world(), "obs": obs})
 		}
